@@ -263,6 +263,21 @@ Theorem C16_uri_into_optlist_safe : forall u dst create chain,
 Proof. exact uri_into_optlist_safe. Qed.
 Print Assumptions C16_uri_into_optlist_safe.
 
+(* the two steps composed: a string of the grammar yields exactly these options, a string
+   outside the grammar yields none *)
+Theorem C16_uri_to_options : forall caps s u dst create chain po qo,
+  uri_grammar caps false s u ->
+  uri_spec_path_opts (up_path u) = Some po -> uri_spec_query_opts (up_query u) = Some qo ->
+  uri_to_options caps s dst create chain =
+  UOk (Some (chain ++ uri_hostport_opts u dst create ++ uri_tag 11 po ++ uri_tag 15 qo)).
+Proof. exact uri_to_options_spec. Qed.
+Print Assumptions C16_uri_to_options.
+
+Theorem C16_uri_to_options_reject : forall caps s dst create chain,
+  (forall u, ~ uri_grammar caps false s u) -> uri_to_options caps s dst create chain = UOk None.
+Proof. exact uri_to_options_reject. Qed.
+Print Assumptions C16_uri_to_options_reject.
+
 (* the port coap_split_uri fills in when the URI has none is the one that needs no Uri-Port *)
 Theorem C16_default_port_no_option : forall name dport ponly sch,
   In (name, dport, ponly, sch) uri_schemes -> uri_scheme_default_port sch = dport.
